@@ -1,12 +1,12 @@
 SPECIFICATION Spec
 CONSTANTS
-  Procs = {1, 2, 3}
-  Prog <- IB
+  Procs = {1, 2}
+  Prog <- IE
   MaxNodes = 7
-  KeyOf <- Keys6
+  KeyOf <- Keys4
   FindPrevStrict = FALSE
-  InitList <- NoInit
-  EarlyFindPrev = FALSE
+  InitList <- InitE
+  EarlyFindPrev = TRUE
   EraseAtObserved = FALSE
 INVARIANTS LinOK ListMatches FinalSorted
 CHECK_DEADLOCK FALSE
